@@ -5,8 +5,9 @@ CONSTANTS
   MaxFronts = 2
   MaxBacks = 2
   MaxSize = 5
-  Deviations = {"DupFrontendAccepted"}
+  Deviations = {}
+  EmitDeviations = {"DupFrontendAccepted"}
   Focus = "all"
   Emit = TRUE
-INVARIANTS EmitFile
+INVARIANTS EmitFile TypeOK P_C20_RejectsExactlyInvalid P_C20_DeclaredIsLoaded P_C20_ReloadIdempotent P_C20_NothingDuplicated P_C20_Compositional
 CHECK_DEADLOCK FALSE
